@@ -309,6 +309,23 @@ def case(ctx, i, rng):
                     name = path[-1] if kind != "required-subclass-argument" else "rsub"
                     if str(name) not in msg:
                         ctx.observe("required-error-does-not-name-key", dict(kind=kind, error=short(msg, 200)))
+    # ---- the section that holds a required option of a subcommand is given, but empty; nothing is filled in from defaults ----
+    for path, kind in required:
+        if kind not in ("required-option-of-subcommand", "required-option-of-subcommand-level2"):
+            continue
+        mutated = copy.deepcopy(cfg)
+        get_node(mutated, path[:-2])[path[-2]] = {}
+        outs = {
+            "object_nodefaults": call(factory().parse_object, copy.deepcopy(mutated), defaults=False),
+            "string_nodefaults": call(factory().parse_string, json.dumps(mutated), defaults=False),
+            "argv_nodefaults": call(factory().parse_args, [str(x) for x in path[:-1]], defaults=False),
+        }
+        for ch, o in outs.items():
+            ctx.count("mon.required_key_mutations")
+            ctx.count("st.required.section-emptied")
+            ctx.evaluation(("req", kind, "section-emptied", ch))
+            if o.accepted:
+                ctx.violation("required", f"missing-required-accepted/{kind}/section-emptied/{'argv' if ch.startswith('argv') else ch_family(ch)}", dict(path=path, channel=ch, config=short(mutated, 700), result=short(o.value, 400)))
     # leftover argv must fail and be quoted
     o = call(factory().parse_args, to_argv(cfg)[:1] + ["--zzq7f3", "1"] + to_argv(cfg)[1:])
     ctx.count("mon.leftover_argv")
